@@ -237,14 +237,19 @@ class ValueSpecBase(ValueSpec):
       raise TypeError(f'{self!r} cannot extend {base!r}: '
                       f'None is not allowed in base spec.')
     self._extend(base)  # pytype: disable=wrong-arg-types  # always-use-return-annotations
-    if self.frozen and self._default is not None:
-      # The frozen value must satisfy the constraints inherited from the base.
+    if MISSING_VALUE != self._default and self._default is not None:
+      # The default (or frozen) value must satisfy the constraints inherited
+      # from the base, at every level of a container.
+      frozen, self._frozen = self._frozen, False
       try:
-        self._validate(utils.KeyPath(), self._default)
-      except ValueError as e:
+        self.apply(self._default, allow_partial=True)
+      except (TypeError, ValueError, KeyError) as e:
+        kind = 'frozen' if frozen else 'default'
         raise TypeError(
-            f'{self!r} cannot extend {base!r}: frozen value '
+            f'{self!r} cannot extend {base!r}: {kind} value '
             f'{self._default!r} is not acceptable to the base spec.') from e
+      finally:
+        self._frozen = frozen
     return self
 
   def _extend(self, base: ValueSpec) -> None:
